@@ -512,6 +512,8 @@ class Fn:
             c = op["c"]
             if "fn" in c:
                 return ("fnref", c["fn"])
+            if "variant" in c:
+                return ("agg", c["ty"].lstrip("&") + "::" + c["variant"], ())
             if "val" in c:
                 return ("const", c["val"], c.get("name"), c.get("ty"))
             if "bytes" in c:
